@@ -17,7 +17,7 @@ SetsOf(f) == [e \in EP |-> IF e \in DOMAIN f THEN SetOf(f[e]) ELSE {}]
 InDom(f, e) == e \in DOMAIN f
 TBoot == /\ Is("Boot")
          /\ kind' = [e \in EP |-> IF InDom(E.kind, e) THEN E.kind[e] ELSE CHOOSE k \in Kinds : TRUE]
-         /\ up' = [e \in EP |-> InDom(E.kind, e)] /\ lists' = SetsOf(E.lists)
+         /\ up' = [e \in EP |-> IF InDom(E.kind, e) THEN "up" ELSE "down"] /\ lists' = SetsOf(E.lists)
          /\ status' = [e \in EP |-> IF InDom(E.status, e) THEN E.status[e] ELSE "offline"] /\ known' = SetsOf(E.known)
          \* the boot itself is an obligation: everybody probed healthy and listed
          /\ \A e \in DOMAIN E.kind : status'[e] = "healthy"
@@ -29,8 +29,8 @@ THealth == /\ Is("Health") /\ Health
            /\ status' = [e \in EP |-> IF InDom(E.status, e) THEN E.status[e] ELSE "offline"] /\ known' = SetsOf(E.known)
            /\ Consume
 TReq    == Is("Req") /\ Arrive(E.route, E.model) /\ Consume
-TRecv   == Is("BackendRecv") /\ E.e \in EP /\ up[E.e] /\ Attempt(E.e) /\ Consume
-TSilent == /\ \E e \in EP : ~up[e] /\ Attempt(e)
+TRecv   == Is("BackendRecv") /\ E.e \in EP /\ up[E.e] # "down" /\ Attempt(E.e) /\ Consume
+TSilent == /\ \E e \in EP : up[e] = "down" /\ Attempt(e)
            /\ UNCHANGED <<l, scn>>
 TDone   == /\ Is("Done") /\ Answer
            /\ IF req.phase = "served" THEN E.st = 200 ELSE E.st >= 400
@@ -39,7 +39,7 @@ TDone   == /\ Is("Done") /\ Answer
 TRepo   == /\ Is("Repo") /\ Idle /\ \A e \in DOMAIN E.status : E.status[e] = status[e]
            /\ UNCHANGED vars /\ l' = l + 1
 
-TraceInit == /\ kind = [e \in EP |-> CHOOSE k \in Kinds : TRUE] /\ up = [e \in EP |-> TRUE]
+TraceInit == /\ kind = [e \in EP |-> CHOOSE k \in Kinds : TRUE] /\ up = [e \in EP |-> "up"]
              /\ lists = [e \in EP |-> {}] /\ status = [e \in EP |-> "healthy"] /\ known = [e \in EP |-> {}]
              /\ req = NoReq /\ act = "Init" /\ scn = <<>> /\ l = 1
 TraceNext == TBoot \/ TUp \/ TRelist \/ THealth \/ TReq \/ TRecv \/ TSilent \/ TDone \/ TRepo
